@@ -320,7 +320,12 @@ def F9(m, R):
         extra = {'end != %s' % Ltxt: True, 'end == %s' % Ltxt: False, 'end < %s' % Ltxt: True,
                  # start < len(text) always holds here: the no-op guard returned for start >= len
                  'start != %s' % Ltxt: True, 'start == %s' % Ltxt: False, 'start < %s' % Ltxt: True, 'start >= %s' % Ltxt: False,
-                 'removed_settings': True, 'not removed_settings': False}
+                 }
+        # list accumulators of the function (initialised with []): taken as non-empty where their truthiness is tested
+        for n_ in f.body:
+            if isinstance(n_, ast.Assign) and isinstance(n_.value, ast.List) and not n_.value.elts and isinstance(n_.targets[0], ast.Name):
+                extra[n_.targets[0].id] = True
+                extra['not ' + n_.targets[0].id] = False
         try:
             out = run_block(loop.body, merge_valuations(order_valuation(order), flag_valuation({}, extra)), visit)
         except Undecided as e:
